@@ -576,13 +576,13 @@ func (g *gen) heapCase() *vcase {
 			}
 			a.op(opcode.REMOVE)
 		case 12:
-			x := pick("AS")
+			x := pick("ASM")
 			if x < 0 {
 				continue
 			}
 			ld(x)
-			if g.r.Bool() {
-				a.op(opcode.REVERSEITEMS)
+			if kind[x] != 'M' && g.r.Bool() {
+				a.op(opcode.REVERSEITEMS) // not defined for maps (FAULT)
 			} else {
 				a.op(opcode.CLEARITEMS)
 				ln[x] = 0
@@ -641,7 +641,22 @@ func (g *gen) mapCase() *vcase {
 	n := g.r.Range(4, 20)
 	results := 0
 	for i := 0; i < n; i++ {
-		switch g.r.Intn(8) {
+		switch g.r.Intn(11) {
+		case 8: // CLEARITEMS: every later operation reuses keys that existed before the clear
+			if i < 2 {
+				continue
+			}
+			a.op(opcode.LDSFLD0, opcode.CLEARITEMS)
+		case 9: // observe the whole map in the middle of the program
+			a.op(opcode.LDSFLD0, []opcode.Opcode{opcode.KEYS, opcode.VALUES, opcode.SIZE}[g.r.Intn(3)])
+		case 10: // remove and immediately re-add the same key (position moves to the end)
+			k := keys[g.r.Intn(nk)]
+			a.op(opcode.LDSFLD0)
+			g.emitPrim(a, k)
+			a.op(opcode.REMOVE, opcode.LDSFLD0)
+			g.emitPrim(a, k)
+			a.pushInt(big.NewInt(int64(100 + i)))
+			a.op(opcode.SETITEM)
 		case 0, 1, 2, 3:
 			a.op(opcode.LDSFLD0)
 			key()
